@@ -160,6 +160,11 @@ def convert(execution) -> dict:
             if k is not None:
                 pending_log = ev("Log", i=k, cls="nolog")
                 out.append(pending_log)
+        elif n == "Abort":
+            # the process was killed right after (possibly inside) the log call: whether the record would have been emitted is unknown
+            if pending_log is not None and out and out[-1] is pending_log:
+                out.pop()
+            pending_log = None
         elif n == "LogEmit":
             if pending_log is not None and log_idx.get(e["pt"]) == pending_log["i"]:
                 pending_log["cls"] = "log"
